@@ -515,8 +515,11 @@ class LoadMixin(AbstractLoaderGenerator, BaseLoadHook):
                     get_origin_v2(possible_tp), _SIMPLE_TYPES)):
 
                 tn = tp_new.type_name(extras)
+                # NOTE: not `tp` - the element expressions of container
+                # members rebind `tp` with a walrus inside a comprehension,
+                # which assigns in this (enclosing) function scope.
                 type_checks.extend([
-                    f'if tp is {tn}:',
+                    f'if tp_v1 is {tn}:',
                     '  return v1'
                 ])
                 list_to_add = try_parse_at_end
@@ -547,7 +550,7 @@ class LoadMixin(AbstractLoaderGenerator, BaseLoadHook):
                     f"valid_tags={list(dataclass_tag_to_lines)})"
                 )
 
-        fn_gen.add_line('tp = type(v1)')
+        fn_gen.add_line('tp_v1 = type(v1)')
 
         if type_checks:
             fn_gen.add_lines(*type_checks)
